@@ -288,7 +288,7 @@ func Run(r *vk.Run) {
 	pid := 0
 	for _, who := range []string{"agg", "hdr", "data"} {
 		for k := 1; k <= r.N(10, 16); k++ {
-			for _, limit := range []uint64{2, 3}[:r.N(1, 2)] {
+			for _, limit := range []uint64{2, 3, 5}[:r.N(2, 3)] {
 				pid++
 				ch <- ParkCase{ID: n + 30000 + pid, Limit: limit, Who: who, K: k}
 			}
